@@ -17,6 +17,8 @@ list, topK != 1, another element than [0]) is a shape change: exit 3, the
 previous output is kept. Coq re-checks the generated list (Props_C13:
 c13_sites_route_by_key).
 
+It also demands that the node's server list is the configured one, unmodified.
+
 Usage: gen_routing_sites.py <repo> <out.v>     exit 0 ok / 3 shape not recognised
 """
 import os, re, sys
@@ -93,6 +95,20 @@ def main():
             sites.append((fn, func, kind, key))
     if len(sites) < 5:
         fail('only %d call sites found' % len(sites))
+    # the server set every call site hashes over is the configured one: c.Servers is assigned exactly once, in
+    # NewNode, from config.Servers, unmodified (no node adds or removes names on its own)
+    assigns = []
+    for fn in sorted(os.listdir(d)):
+        if not fn.endswith('.go') or fn.endswith('_test.go') or 'verif' in fn:
+            continue
+        for i, raw in enumerate(open(os.path.join(d, fn)).read().split('\n')):
+            ln = raw.strip()
+            if ln.startswith('//'):
+                continue
+            if re.search(r'\bServers:\s', ln) and not re.search(r'yaml:', ln) or re.search(r'\.Servers\s*=[^=]', ln):
+                assigns.append((fn, i + 1, ln))
+    if len(assigns) != 1 or assigns[0][0] != 'clusternode.go' or not re.match(r'^Servers:\s+config\.Servers,$', assigns[0][2]):
+        fail('the server list of a node must be assigned once, `Servers: config.Servers,` in NewNode; found %s' % assigns)
     body = ['(* generated by gen/gen_routing_sites.py from cluster/*.go -- do not edit *)',
             'From Coq Require Import List String Bool.', 'Import ListNotations.', 'Open Scope string_scope.', '',
             'Inductive key_kind := KUser | KShard.',
